@@ -11,18 +11,26 @@ use std::io::{BufReader, BufWriter, Read, Write};
 use std::path::{Component, Path, PathBuf};
 
 /// Join a client-supplied relative path under `root`, rejecting absolute paths
-/// and any `..`/root escape (path-traversal guard).
+/// and any `..`/root escape (path-traversal guard), and anything inside the hub's own
+/// `.copia` control directory: `List` hides that directory, so a file stored there could
+/// never be seen again (every later push of it ended in a CAS conflict), and a Put or
+/// Delete of `.copia/commit.lock` would swap the lock's inode under running servers.
 fn safe_join(root: &Path, rel: &str) -> Option<PathBuf> {
     let p = Path::new(rel);
     if p.is_absolute() {
         return None;
     }
+    let mut first_name = true;
     for c in p.components() {
-        if matches!(
-            c,
-            Component::ParentDir | Component::RootDir | Component::Prefix(_)
-        ) {
-            return None;
+        match c {
+            Component::ParentDir | Component::RootDir | Component::Prefix(_) => return None,
+            Component::Normal(name) => {
+                if first_name && name == ".copia" {
+                    return None;
+                }
+                first_name = false;
+            }
+            Component::CurDir => {}
         }
     }
     Some(root.join(p))
